@@ -498,7 +498,9 @@ def opSql (op : String) : Chars :=
   else if op = "$lte" then ['<', '='] else if op = "$lt" then ['<'] else []
 
 def balanceHead : Chars := "(\n\t\t\t\tselect balance_from_volumes(post_commit_volumes)\n\t\t\t\tfrom moves\n\t\t\t\twhere ".toList
-def balanceTail : Chars := "\n\t\t\t\torder by seq desc\n\t\t\t\tlimit 1\n\t\t\t) < ".toList
+def balanceTailPre : Chars := "\n\t\t\t\torder by seq desc\n\t\t\t\tlimit 1\n\t\t\t) ".toList
+/-- the balance conditions compare with the operator of the filter (`query.DefaultComparisonOperatorsMapping`) -/
+def balanceTail (op : String) : Chars := balanceTailPre ++ opSql op ++ [' ']
 
 /-- the column a metadata filter is applied to; `pit`: the request carries a point in time -/
 def metadataColumn (ep : Endpoint) (pit : Bool) : Chars :=
@@ -550,10 +552,10 @@ def leafPieces (ep : Endpoint) (pit : Bool) (ledger : Chars) (key : FKey) (op : 
   | .accounts, .balanceOf asset =>
     .ok [.code (balanceHead ++ "asset = ".toList), .lit (quoteBody asset),
          .code " and account_address = accounts.address and ledger = ".toList, .lit (quoteBody ledger),
-         .code balanceTail, argPiece v]
+         .code (balanceTail op), argPiece v]
   | .accounts, .balance =>
     .ok [.code (balanceHead ++ "account_address = accounts.address and ledger = ".toList), .lit (quoteBody ledger),
-         .code balanceTail, argPiece v]
+         .code (balanceTail op), argPiece v]
   | .transactions, .reference => .ok [.code ("reference ".toList ++ opSql op ++ [' ']), argPiece v]
   | .transactions, .timestamp => .ok [.code ("timestamp ".toList ++ opSql op ++ [' ']), argPiece v]
   | .logs, .date => .ok [.code ("date ".toList ++ opSql op ++ [' ']), argPiece v]
